@@ -584,9 +584,17 @@ func (x *Exec) indexVal(st *State, sc *scope, xv, iv Val) (Val, error) {
 	case xv.T.Sort == SRef && xv.Typ != nil:
 		if mt, ok := xv.Typ.Underlying().(*types.Map); ok {
 			ks, vs := x.S.SortOf(mt.Key()), x.S.SortOf(mt.Elem())
+			if iv.T.Sort == SRef && ks != SRef {
+				if kv, err := x.bindingValDeref(st, sc, iv); err == nil {
+					iv = kv
+				}
+			}
 			vn, vsrt := "MV."+ks+"."+vs, ArraySort(SRef, ArraySort(ks, vs))
 			arr := heapArrIn(x, x.heapFor(st, sc), vn, vsrt)
-			return Val{T: Select(Select(arr, xv.T), iv.T), Typ: mt.Elem()}, nil
+			dn, ds := "MD."+ks, ArraySort(SRef, ArraySort(ks, SBool))
+			dom := heapArrIn(x, x.heapFor(st, sc), dn, ds)
+			// m[k] in a spec is Go's m[k]: the zero value when k is absent
+			return Val{T: Ite(Select(Select(dom, xv.T), iv.T), Select(Select(arr, xv.T), iv.T), x.S.Zero(mt.Elem())), Typ: mt.Elem()}, nil
 		}
 	}
 	return Val{}, fmt.Errorf("cannot index %s", xv.T.Sort)
@@ -795,7 +803,14 @@ func (x *Exec) evalCall(st *State, fr *Frame, e ECall, sc *scope) (Val, error) {
 			if mt, ok := args[0].Typ.Underlying().(*types.Map); ok {
 				ks := x.S.SortOf(mt.Key())
 				dn, ds := "MD."+ks, ArraySort(SRef, ArraySort(ks, SBool))
-				return Val{T: Select(Select(heapArrIn(x, x.heapFor(st, sc), dn, ds), args[0].T), args[1].T)}, nil
+				key := args[1]
+				if key.T.Sort == SRef && ks != SRef {
+					// a struct local named through its address: the key is its value
+					if kv, err := x.bindingValDeref(st, sc, key); err == nil {
+						key = kv
+					}
+				}
+				return Val{T: Select(Select(heapArrIn(x, x.heapFor(st, sc), dn, ds), args[0].T), key.T)}, nil
 			}
 		}
 		return Val{}, fmt.Errorf("has(): first argument is not a map")
@@ -847,7 +862,11 @@ func (x *Exec) evalCall(st *State, fr *Frame, e ECall, sc *scope) (Val, error) {
 						if !ok {
 							continue
 						}
-						if n := staticCalleeName(c.Common()); n != "" && matchCallee(lit.V, n) {
+						n := staticCalleeName(c.Common())
+						if n == "" && !c.Common().IsInvoke() {
+							n = "<dynamic>"
+						}
+						if n != "" && matchCallee(lit.V, n) {
 							res := c.Common().Signature().Results()
 							if res.Len() == 0 {
 								continue
